@@ -161,7 +161,23 @@ func c09RowHolds(p *Program, ff *FuncFacts, s PanicSite, row *c09Row, via map[*s
 	}
 	if len(row.callerFacts) > 0 {
 		n := 0
-		for _, site := range p.callSitesOf(s.Fn) {
+		// a call made from a new helper is a call made by that helper's callers: the facts are
+		// asked for at their call sites (each on its own — the callers need not agree on terms)
+		var sites []Site
+		var expand func(fn *ssa.Function, depth int)
+		seenH := map[*ssa.Function]bool{}
+		expand = func(fn *ssa.Function, depth int) {
+			for _, site := range p.callSitesOf(fn) {
+				if isNewHelper(site.Fn) && depth < 3 && !seenH[site.Fn] {
+					seenH[site.Fn] = true
+					expand(site.Fn, depth+1)
+					continue
+				}
+				sites = append(sites, site)
+			}
+		}
+		expand(s.Fn, 0)
+		for _, site := range sites {
 			if _, reach := via[site.Fn]; !reach {
 				continue
 			}
